@@ -24,8 +24,11 @@ RULE = ('exhaustive lists of length 1..4 (thorough 1..5) over {-2,0,1,3,0.5,2.5,
         'length 1..10 (ints |v|<=10^6, floats with <=3 decimals, int/float mixes, constant and '
         'near-constant lists, strings; None sprinkled in; Missing.Value simulated); every list is '
         'rendered in the four modes {var,expression} x {mapping,attributes} with the first-accessed '
-        'statistic rotated; a case is non-trivial when at least two values are non-missing; '
-        'distinct = distinct (typed value list, mapping, channel, variable name, rotation)')
+        'statistic rotated over all ten names and the variable name drawn from {x,n,age,count,value}; '
+        '30% of the seeded renders summarise a second, independently generated variable of the same '
+        'items with interleaved accesses; a case is non-trivial when at least two values of a variable '
+        'are non-missing; distinct = distinct (variable names with their typed value lists, mapping, '
+        'channel, rotation)')
 ASSUMPTIONS = [
     'only all-numeric(+None) or all-string(+None) lists are generated (the mixes the documentation defines)',
     'ints: count/total/min/max/odd median are demanded exactly; floats and all derived statistics within '
@@ -34,7 +37,9 @@ ASSUMPTIONS = [
     'statement silent, not asserted: sample variance / standard deviation for a single value; every statistic '
     'but count when all values are missing; the wording of the even-count text median (it only has to '
     'contain both middle values); which value inside the two middle values an even-count median takes',
-    'the Missing package is not installed in /venv: Missing.Value is simulated by binding DT_InSV.mv to a sentinel',
+    'a standard deviation is accepted when it lies between the roots of (variance -/+ its tolerance)',
+    'the Missing package is not installed in /venv: Missing.Value is simulated by binding DT_InSV.mv to a '
+    'sentinel that absorbs arithmetic like the real one',
 ]
 SHARD_TIMEOUT = {'quick': 600, 'thorough': 3000}
 NSHARDS = {'quick': 16, 'thorough': 48}
